@@ -194,7 +194,7 @@ func c17AbsCaptureTime(c *mc.Ctx) {
 	}
 	base := len(sym)
 	inner := base * base * base * base * base
-	top := c.Pick(base * base * base) // three symbols of the grid word; the remaining ones swept inside
+	top := c.Pick(base * base * base)   // three symbols of the grid word; the remaining ones swept inside
 	other := c.Pick(len(c17Others) + 1) // value of the other field; last = no offset (only when the timestamp sweeps)
 	prior := c.Pick(6)                  // 0 fresh, 1 used without offset, 2 used with offset, 3-5 derived from the current value
 	if which == 1 && other == len(c17Others) {
